@@ -46,7 +46,7 @@ let dump_usk u =
   let (m, id) = match u.u_id with Some i -> (2, Printf.sprintf "i%d" (int_of_n i)) | None -> (0, "i-") in
   Printf.sprintf "USK l=1 m=%d p=2 sg=1 id=%s K=%s" m id
     (String.concat " " (List.sort compare (List.map (fun (r, ch) -> Printf.sprintf "%s=%s" (rhex r) (String.concat ";" (List.map (sec "t") ch))) u.u_chains)))
-let dump_enc x = Printf.sprintf "ENC l=1 t=2 h=%d n=%d" (b2i x.x_hyb) (List.length x.x_entries)
+let dump_enc x = Printf.sprintf "ENC l=1 t=2 h=%d n=%d tag=g%d ss=k%d" (b2i x.x_hyb) (List.length x.x_entries) (int_of_n x.x_seed) (int_of_n x.x_seed)
 
 let rec last = function [x] -> x | _ :: t -> last t | [] -> failwith "last"
 let nth l i = List.nth l i
@@ -56,6 +56,7 @@ let idx s len = let i = int_of_string s in if len = 0 then 10000 else i mod len
 let () =
   let fx = if Array.length Sys.argv > 1 && Sys.argv.(1) = "pinned" then pinned else fixed in
   let s = ref init in
+  let snaps = ref [] in
   let do_op o = let (s', ob) = step fx !s o in s := s'; ob in
   let obs_str = function ObOk -> "OK" | ObErr -> "ERR" | ObNone -> "NONE" | ObSome _ -> "SOME" | ObNoIdx -> "NOIDX" | ObDead -> "DEAD" in
   let p1 ob = Printf.printf "%s|%s\n" (obs_str ob) (dump_msk !s.st_msk) in
@@ -65,7 +66,13 @@ let () =
   try while true do
     let line = input_line stdin in
     match String.split_on_char ' ' line with
-    | ["SETUP"] -> let ob = do_op OSetup in p2 ob (fun () -> dump_mpk (last !s.st_mpks))
+    | ["SNAP"] -> snaps := !snaps @ [!s.st_msk]; p1 ObOk
+    | ["REST"; k] ->
+        if !snaps = [] then Printf.printf "NOIDX|%s\n" (dump_msk !s.st_msk)
+        else begin
+          (* restoring a backup: the saved master key replaces the current one; everything else is untouched *)
+          s := { !s with st_msk = List.nth !snaps (int_of_string k mod List.length !snaps) }; p1 ObOk end
+    | ["SETUP"] -> snaps := []; let ob = do_op OSetup in p2 ob (fun () -> dump_mpk (last !s.st_mpks))
     | ["AA"; d] -> p1 (do_op (OAddAnarchy (str_of_tok d)))
     | ["AH"; d] -> p1 (do_op (OAddHierarchy (str_of_tok d)))
     | ["DD"; d] -> p1 (do_op (ODelDim (str_of_tok d)))
